@@ -405,7 +405,7 @@ func (s *Session) TipNode() *chaingen.Node {
 	if err != nil {
 		return nil
 	}
-	return s.G.ByHash[h.BlockHash()]
+	return s.G.Lookup(h.BlockHash())
 }
 
 // WorkOf sums the work of headers.
